@@ -25,44 +25,48 @@
 EXTENDS Naturals, Sequences, TLC
 
 CONSTANTS Options,          \* set of option records
-          ClearEachIteration \* TRUE as implemented; FALSE = deviation (caches never cleared)
+          ClearEachIteration, \* TRUE as implemented; FALSE = deviation (caches never cleared)
+          InterruptibleSMC    \* deviation: a from-scratch SMC pass of the burn-in may stop when a finite time limit is used
+                              \* up, leaving a tree over the first few data points (no later move adds the missing ones)
 
-VARIABLES opt, phase, i, pc, k, alphaVer, treeVer, cacheVers, elapsedPos, trace, ev
-vars == <<opt, phase, i, pc, k, alphaVer, treeVer, cacheVers, elapsedPos, trace, ev>>
-view == <<opt, phase, i, pc, k, alphaVer, treeVer, cacheVers, elapsedPos, trace>>
+VARIABLES opt, phase, i, pc, k, alphaVer, treeVer, cacheVers, elapsedPos, trace, ev,
+          whole               \* the chain's tree holds every data point (as implemented: always, every SMC pass runs to its end)
+vars == <<opt, phase, i, pc, k, alphaVer, treeVer, cacheVers, elapsedPos, trace, ev, whole>>
+view == <<opt, phase, i, pc, k, alphaVer, treeVer, cacheVers, elapsedPos, trace, whole>>
 
-Entry(it) == [iter |-> it, alphaVer |-> alphaVer, treeVer |-> treeVer]
+Entry(it) == [iter |-> it, alphaVer |-> alphaVer, treeVer |-> treeVer, whole |-> whole]
 
 Init == /\ opt \in Options
         /\ phase = IF opt.burnin > 0 THEN "burnin" ELSE "setup"
         /\ i = 0 /\ pc = "clear" /\ k = 0 /\ alphaVer = 0 /\ treeVer = 0 /\ cacheVers = {}
-        /\ elapsedPos = FALSE /\ trace = <<>> /\ ev = [name |-> "init"]
+        /\ elapsedPos = FALSE /\ trace = <<>> /\ ev = [name |-> "init"] /\ whole = TRUE
 
 InLoop == phase \in {"burnin", "main"}
 \* ---- steps common to both loops
 Clear == /\ InLoop /\ pc = "clear"
          /\ cacheVers' = IF ClearEachIteration THEN {} ELSE cacheVers
          /\ pc' = "smc" /\ ev' = [name |-> "clear_caches"]
-         /\ UNCHANGED <<opt, phase, i, k, alphaVer, treeVer, elapsedPos, trace>>
+         /\ UNCHANGED <<whole, opt, phase, i, k, alphaVer, treeVer, elapsedPos, trace>>
 SMC == /\ InLoop /\ pc = "smc"
        /\ \E s \in (IF phase = "burnin" THEN {"burnin"}
                     ELSE CASE opt.sub = "never" -> {"tree"} [] opt.sub = "always" -> {"subtree"} [] OTHER -> {"tree", "subtree"}) :
             ev' = [name |-> "sample_tree", sampler |-> s]
        /\ treeVer' = treeVer + 1 /\ cacheVers' = cacheVers \cup {alphaVer}
        /\ pc' = "dp" /\ k' = opt.ndp
+       /\ whole' \in (IF InterruptibleSMC /\ phase = "burnin" /\ opt.tmax # "inf" THEN {whole, FALSE} ELSE {whole})
        /\ UNCHANGED <<opt, phase, i, alphaVer, elapsedPos, trace>>
 DP == /\ InLoop /\ pc = "dp"
       /\ IF k > 0 THEN /\ treeVer' = treeVer + 1 /\ k' = k - 1 /\ pc' = "dp" /\ ev' = [name |-> "sample_tree", sampler |-> "dp"]
                   ELSE /\ pc' = "prg" /\ k' = opt.nprg /\ ev' = [name |-> "skip"] /\ UNCHANGED treeVer
-      /\ UNCHANGED <<opt, phase, i, alphaVer, cacheVers, elapsedPos, trace>>
+      /\ UNCHANGED <<whole, opt, phase, i, alphaVer, cacheVers, elapsedPos, trace>>
 PRG == /\ InLoop /\ pc = "prg"
        /\ IF k > 0 THEN /\ treeVer' = treeVer + 1 /\ k' = k - 1 /\ pc' = "prg" /\ ev' = [name |-> "sample_tree", sampler |-> "prg"]
                    ELSE /\ pc' = "relabel" /\ k' = 0 /\ ev' = [name |-> "skip"] /\ UNCHANGED treeVer
-       /\ UNCHANGED <<opt, phase, i, alphaVer, cacheVers, elapsedPos, trace>>
+       /\ UNCHANGED <<whole, opt, phase, i, alphaVer, cacheVers, elapsedPos, trace>>
 Relabel == /\ InLoop /\ pc = "relabel"
            /\ pc' = IF phase = "burnin" THEN "time" ELSE "conc"
            /\ ev' = [name |-> "relabel"]
-           /\ UNCHANGED <<opt, phase, i, k, alphaVer, treeVer, cacheVers, elapsedPos, trace>>
+           /\ UNCHANGED <<whole, opt, phase, i, k, alphaVer, treeVer, cacheVers, elapsedPos, trace>>
 \* ---- burn-in only: time check inside the timed block, then the block exits (elapsed becomes positive)
 BurninTime == /\ phase = "burnin" /\ pc = "time"
               /\ \E stop \in IF (opt.tmax = "zero" /\ elapsedPos) \/ (i + 1 >= opt.burnin) THEN {TRUE}
@@ -71,31 +75,31 @@ BurninTime == /\ phase = "burnin" /\ pc = "time"
                    /\ i' = IF stop THEN 0 ELSE i + 1
               /\ pc' = "clear" /\ elapsedPos' \in {TRUE, elapsedPos}
               /\ ev' = [name |-> "skip"]
-              /\ UNCHANGED <<opt, k, alphaVer, treeVer, cacheVers, trace>>
+              /\ UNCHANGED <<whole, opt, k, alphaVer, treeVer, cacheVers, trace>>
 \* ---- setup_trace: the post-burn-in state is recorded first, with iter 0
 Setup == /\ phase = "setup"
          /\ trace' = Append(trace, Entry(0))
          /\ phase' = IF opt.iters > 0 THEN "main" ELSE "done"
          /\ i' = 0 /\ pc' = "clear" /\ ev' = [name |-> "append", iter |-> 0]
-         /\ UNCHANGED <<opt, k, alphaVer, treeVer, cacheVers, elapsedPos>>
+         /\ UNCHANGED <<whole, opt, k, alphaVer, treeVer, cacheVers, elapsedPos>>
 \* ---- main only
 Conc == /\ phase = "main" /\ pc = "conc"
         /\ IF opt.conc THEN alphaVer' = alphaVer + 1 /\ ev' = [name |-> "conc_update"]
                        ELSE UNCHANGED alphaVer /\ ev' = [name |-> "skip"]
         /\ pc' = "append"
-        /\ UNCHANGED <<opt, phase, i, k, treeVer, cacheVers, elapsedPos, trace>>
+        /\ UNCHANGED <<whole, opt, phase, i, k, treeVer, cacheVers, elapsedPos, trace>>
 AppendStep == /\ phase = "main" /\ pc = "append"
               /\ IF i % opt.thin = 0 THEN trace' = Append(trace, Entry(i)) /\ ev' = [name |-> "append", iter |-> i]
                                      ELSE UNCHANGED trace /\ ev' = [name |-> "skip"]
               /\ pc' = "time"
-              /\ UNCHANGED <<opt, phase, i, k, alphaVer, treeVer, cacheVers, elapsedPos>>
+              /\ UNCHANGED <<whole, opt, phase, i, k, alphaVer, treeVer, cacheVers, elapsedPos>>
 MainTime == /\ phase = "main" /\ pc = "time"
             /\ \E stop \in IF (opt.tmax = "zero") \/ (i + 1 >= opt.iters) THEN {TRUE}
                                ELSE IF opt.tmax = "finite" THEN {TRUE, FALSE} ELSE {FALSE} :
                  /\ phase' = IF stop THEN "done" ELSE "main"
                  /\ i' = IF stop THEN i ELSE i + 1
             /\ pc' = "clear" /\ elapsedPos' = TRUE /\ ev' = [name |-> "skip"]
-            /\ UNCHANGED <<opt, k, alphaVer, treeVer, cacheVers, trace>>
+            /\ UNCHANGED <<whole, opt, k, alphaVer, treeVer, cacheVers, trace>>
 Done == phase = "done" /\ UNCHANGED vars
 Next == Clear \/ SMC \/ DP \/ PRG \/ Relabel \/ BurninTime \/ Setup \/ Conc \/ AppendStep \/ MainTime \/ Done
 Spec == Init /\ [][Next]_vars /\ WF_vars(Clear \/ SMC \/ DP \/ PRG \/ Relabel \/ BurninTime \/ Setup \/ Conc \/ AppendStep \/ MainTime)
@@ -120,5 +124,7 @@ AppendOnly == [][\E s \in {<<>>} \cup {<<Entry(0)>>} \cup {<<Entry(i)>>} : trace
 CacheFresh == pc = "smc" => cacheVers \subseteq {alphaVer}
 \* the concentration value only changes between the tree moves and the trace append of the same iteration
 AlphaOnlyAtConc == [][alphaVer' # alphaVer => (phase = "main" /\ pc = "conc" /\ opt.conc)]_vars
+\* every recorded entry is a tree over ALL data points
+EntriesWhole == \A j \in 1..Len(trace) : trace[j].whole
 Terminates == <>(phase = "done")
 =============================================================================
